@@ -98,7 +98,7 @@ func c07Specs(c *run.Ctx) []built {
 		spec.Spec{Name: "c07-url-two-checks", Base: "new", Calls: []C{attrsOn([]string{"href"}, "", "a"),
 			{Op: "AllowURLSchemeWithCustomPolicy", Names: []string{"http"}, Fn: "never"}, {Op: "AllowURLSchemeWithCustomPolicy", Names: []string{"http"}, Fn: "always"}}},
 	)
-	out = append(out, specsByName("ugc", "cmd-ugc", "cmd-email", "links", "media", "attrs", "pattern", "pattern-bare", "foreign", "bpbr", "skipmod", "styles", "rare-builder-forms")...)
+	out = append(out, specsByName("ugc", "cmd-ugc", "cmd-email", "links", "media", "attrs", "pattern", "pattern-bare", "foreign", "bpbr", "skipmod", "styles", "rare-builder-forms", "pattern-std-names", "literal-options-first")...)
 	// style rules in every scope and with every kind of matcher, names and enum entries spelled in mixed case
 	out = append(out,
 		spec.Spec{Name: "c07-styles-mixed-case", Base: "new", Calls: []C{els("p", "span"), {Op: "AllowElementsMatching", Re: reMy},
@@ -106,6 +106,9 @@ func c07Specs(c *run.Ctx) []built {
 			{Op: "AllowStyles", Names: []string{"WIDTH"}, Enum: []string{"1PX"}, Scope: "on", On: []string{"P"}},
 			{Op: "AllowStyles", Names: []string{"text-align"}, Scope: "matching", OnRe: reMy},
 			{Op: "AllowStyles", Names: []string{"color"}, Handler: "is-green", Scope: "matching", OnRe: reMyX}}},
+		spec.Spec{Name: "c07-style-attr-vs-style-rules", Base: "new", Calls: []C{els("p", "span", "b"), attrsOn([]string{"style", "title"}, "", "p", "b"),
+			{Op: "AllowStyles", Names: []string{"color"}, Scope: "on", On: []string{"span"}},
+			{Op: "AllowStyles", Names: []string{"width"}, Enum: []string{"1px"}, Scope: "matching", OnRe: reMy}, {Op: "AllowElementsMatching", Re: reMy}}},
 		spec.Spec{Name: "c07-styles-overlap", Base: "new", Calls: []C{els("p", "span"),
 			{Op: "AllowStyles", Names: []string{"color"}, Handler: "is-red", Scope: "global"},
 			{Op: "AllowStyles", Names: []string{"color"}, Enum: []string{"blue"}, Scope: "on", On: []string{"p"}},
@@ -170,7 +173,7 @@ func styleWitnesses(v *spec.View, el string) []string {
 	return out
 }
 
-var patternCandidates = []string{"my-x", "my-xy", "my-y", "my-ab", "ui-card", "zz-top"}
+var patternCandidates = []string{"my-x", "my-xy", "my-y", "my-ab", "ui-card", "zz-top", "object", "title", "iframe", "b", "img", "p"}
 
 func c07Elements(v *spec.View) []string {
 	out := v.AllowedElementNames()
